@@ -8,7 +8,7 @@ impl Bv {
         match self { Bv::Fixed(b) => b.length, Bv::Dynamic(b) => b.length }
     }
     pub open spec fn sbit(&self, i: int) -> bool {
-        match self { Bv::Fixed(b) => bit_at(b.data@, i), Bv::Dynamic(b) => bit_at(b.data@, i) }
+        match self { Bv::Fixed(b) => bit_at{X}(b.data@, i), Bv::Dynamic(b) => bit_at{X}(b.data@, i) }
     }
     /// capacity in bits
     pub open spec fn scap(&self) -> int {
